@@ -207,6 +207,16 @@ def memo_crosscheck(ctx, ans, detail):
                  "the memoised overlap search exhausts fuelBound (overlap_memo_terminates says it cannot)",
                  dict(detail, memo=m), kind="correspondence")
         return
+    if ans.get("memo_alone") is not None and m.get("memo_overlap") is not None:
+        # rule alone: `overlapMemoRun` (the function of the theorems) against the chain with the memoised search inside
+        # (`runM`, what is compared with the real validator) - same number of errors
+        o["memo_alone_vs_chain"] = o.get("memo_alone_vs_chain", 0) + 1
+        ctx.stat("memo:alone-vs-chain")
+        if ans["memo_alone"] != m["memo_overlap"]:
+            ctx.fail("memo:theorem-function-differs-from-chain",
+                     "overlapMemoRun (rule alone, the function of the theorems) and the chain run with the memoised search "
+                     "count different numbers of errors", dict(detail, memo=m, memo_alone=ans["memo_alone"]),
+                     kind="correspondence")
     if m.get("plain_overlap") is not None and m.get("memo_overlap") is not None:
         ctx.count()
         o["memo_crosscheck_done"] += 1
